@@ -209,17 +209,17 @@ def allowed(pre, op, trivia):
         for ln in range(sl, el + 1):
             c = pre.comment_on.get(ln)
             if c is not None:
-                A.add(c.string)
+                A.add(_ts(c))
         return A, L
 
     def add_span(sl, sc, el, ec):
         for t in pre.toks:
             if t.start >= (sl, sc) and t.end <= (el, ec) and is_unique_kind(t):
-                A.add(t.string)
+                A.add(_ts(t))
             if t.type == tokenize.COMMENT and sl <= t.start[0] <= el and t.start >= (sl, sc) and (t.start[0] < el or t.start[1] < ec or True):
                 # comments inside the element's line range after its start: inside own parentheses / brackets
                 if t.start <= (el, ec):
-                    A.add(t.string)
+                    A.add(_ts(t))
         for ln in range(sl, el + 1):
             L.add(ln)
 
@@ -264,7 +264,7 @@ def allowed(pre, op, trivia):
             while ln >= 1 and ln not in pre.code_lines:
                 c = pre.comment_on.get(ln)
                 if c is not None:
-                    A.add(c.string)
+                    A.add(_ts(c))
                 L.add(ln)
                 ln -= 1
         else:
@@ -276,14 +276,14 @@ def allowed(pre, op, trivia):
         is_block = isinstance(e, (ast.FunctionDef, ast.AsyncFunctionDef, ast.ClassDef, ast.If, ast.For, ast.AsyncFor, ast.While, ast.With, ast.AsyncWith, ast.Try, ast.TryStar, ast.Match, ast.ExceptHandler, ast.match_case))
         c = pre.comment_on.get(el)
         if c is not None and c.start >= (el, ec) and (trail != 'none' or is_block):
-            A.add(c.string)
+            A.add(_ts(c))
         if trail.startswith(('block', 'all')) or True:
             ln = el + 1
             while ln <= nlines and ln not in pre.code_lines:
                 cc = pre.comment_on.get(ln)
                 if cc is not None:
                     if trail.startswith(('block', 'all')):
-                        A.add(cc.string)
+                        A.add(_ts(cc))
                         L.add(ln)
                     else:
                         break
@@ -316,7 +316,7 @@ def allowed(pre, op, trivia):
                         if ln in pre.code_lines and not _is_section_header(pre.lines[ln - 1]):
                             break
                         if c is not None:
-                            A.add(c.string)
+                            A.add(_ts(c))
                         ln -= 1
             # an If whose orelse is a lone If (elif): conversions re-write 'elif' <-> 'else:' + 'if'
             ln = el + 1
@@ -364,13 +364,13 @@ def allowed(pre, op, trivia):
         hs = pre.extent(cont)
         for t in pre.toks:
             if t.type == tokenize.NAME and t.string == cont.name and hs[0] <= t.start[0] <= cont.body[0].lineno:
-                A.add(t.string)
+                A.add(_ts(t))
     # couplings that validity forces: deleting Raise.exc deletes its cause
     if isinstance(cont, ast.Raise) and field == 'exc' and cont.cause is not None:
         sl, sc, el, ec = pre.extent(cont.cause)
         for t in pre.toks:
             if t.start >= (sl, sc) and t.end <= (el, ec) and is_unique_kind(t):
-                A.add(t.string)
+                A.add(_ts(t))
     for ln in list(L):
         lg = pre.logical.get(ln)
         if lg:
@@ -430,7 +430,12 @@ def uniq_tokens(src):
         tk = list(tokenize.generate_tokens(io.StringIO(src).readline))
     except (tokenize.TokenError, SyntaxError, IndentationError):
         return None
-    return [t.string for t in tk if is_unique_kind(t)]
+    return [_ts(t) for t in tk if is_unique_kind(t)]
+
+
+def _ts(t):
+    """Token text; trailing whitespace of a comment is not part of the comment."""
+    return t.string.rstrip() if t.type == tokenize.COMMENT else t.string
 
 
 @plugin
@@ -450,7 +455,7 @@ class C04(Plugin):
         cfg['opt_allow'] = ['trivia', 'pep8space', 'elif_', 'docstr', 'pars']
         cfg['max_lines'] = 50
         if rng.random() < 0.3:
-            cfg['base_opts'] = dict(cfg['base_opts'], trivia=O.enc_opts({'t': rng.choice(O.TRIVIA_VALUES)})['t'])
+            cfg['base_opts'] = dict(cfg['base_opts'], trivia=O.enc_opts({'t': O.gen_trivia(rng)})['t'])
         cfg['forms'] = ('src', 'src', 'fst')
         return cfg
 
@@ -558,7 +563,7 @@ class C04(Plugin):
             return
         A, L = al
         run.stats['windows_checked'] += 1
-        u_pre = [t.string for t in pre.toks if is_unique_kind(t)]
+        u_pre = [_ts(t) for t in pre.toks if is_unique_kind(t)]
         u_post = uniq_tokens(post_src)
         if u_post is None:
             return
